@@ -611,6 +611,18 @@ def gen_cases(seed, n, focus, strategies=None, max_tasks=8):
             top = gen.mk_task("", "top", rng.choice(["group", "combine", "run_command"]), [t["id"] for t in fan])
             inv = {"target": "//:top", "jobs": rng.choice([9, 10, 12, 16, 24]), "again": False, "stop_early": False, "script": {}, "strategy": rng.choice(["blocked-all", "blocked-all", "blocked-randbatch", "eager", "anywhere"]), "seed": rng.randrange(1 << 30)}
             cases.append({"family": "big-fan", "tasks": gen.dump(fan + [top]), "history": [inv]})
+    if focus in ("wide", "faults", "live"):
+        # two stages: {F (fails), G} run in parallel; a fan of parallel tasks waits for G only, so the
+        # fan becomes ready at once AFTER a failure was processed while the ready queue was empty
+        for rep in range(10 if n < 2000 else 300):
+            k = rng.randint(3, 6)
+            F = gen.mk_task("", "F", rng.choice(["run_command", "run_experiment"]), par=True)
+            G = gen.mk_task(rng.choice(["", "a"]), "G", rng.choice(["run_command", "run_experiment"]), par=True)
+            fan = [gen.mk_task(rng.choice(["", "a"]), "s%d" % j, rng.choice(["run_command", "run_experiment"]), [G["id"]], par=True) for j in range(k)]
+            top = gen.mk_task("", "top", "group", [F["id"]] + [t["id"] for t in fan])
+            inv = {"target": "//:top", "jobs": rng.choice([3, 4, 5, 8]), "again": False, "stop_early": False, "script": {F["id"]: dict(rng.choice(FAULTS))},
+                   "strategy": rng.choice(["blocked-fifo", "blocked-lifo", "blocked-random", "blocked-all", "anywhere"]), "seed": rng.randrange(1 << 30)}
+            cases.append({"family": "two-stage-fan-with-failing-sibling", "tasks": gen.dump([F, G] + fan + [top]), "history": [inv]})
     if focus in ("deps", "cache"):
         for rep in range(6 if n < 2000 else 40):
             # the same dependency listed twice under two spellings: must be rejected, nothing may run
